@@ -234,6 +234,9 @@ def main():
         scale = a.scale * lcfg.get("scale", 1.0)
         timeout = lcfg.get("timeout", cfg.get("timeout_thorough" if tier == "thorough" else "timeout_quick", 900))
         largs = list(extra)
+        for k, v in lcfg.get("env", {}).items():
+            env = dict(env)
+            env[k] = v
         for k, v in lcfg.get("args", {}).items():
             largs += [f"--{k}", str(v)]
         t1 = time.time()
